@@ -384,7 +384,28 @@ func (c *Case) Run() *Result {
 	}
 	res.Trace = ReadTrace(tracePath)
 	res.Events = ReadEvents(evPath)
+	if why := environmentFailure(ob); why != "" && (res.Hang == "" || strings.HasPrefix(res.Hang, "deadlock")) {
+		// the machine, not the library: no verdict can be based on this run
+		res.Hang = "inconclusive:environment:" + why
+	}
 	return res
+}
+
+// environmentFailure recognises runs that failed because the machine ran out of process slots, memory or
+// disk space (seen: fork/exec EAGAIN while a mutation analysis had leaked thousands of test processes).
+func environmentFailure(out []byte) string {
+	lo := bytes.ToLower(out)
+	switch {
+	case bytes.Contains(lo, []byte("resource temporarily unavailable")) && (bytes.Contains(lo, []byte("fork")) || bytes.Contains(lo, []byte("newosproc")) || bytes.Contains(lo, []byte("failed to create new os thread"))):
+		return "out-of-process-slots (fork: resource temporarily unavailable)"
+	case bytes.Contains(lo, []byte("failed to create new os thread")):
+		return "out-of-threads"
+	case bytes.Contains(lo, []byte("cannot allocate memory")):
+		return "out-of-memory"
+	case bytes.Contains(lo, []byte("no space left on device")):
+		return "disk-full"
+	}
+	return ""
 }
 
 // ReadTrace parses a trace file.
